@@ -46,6 +46,13 @@ def check_crc(ctx, prog, rule):
                     no_ok = reach(g_, [0])
                     err_side = reach(f.cfg(), [err_succ])
                     ok = bool(trues) and all(b not in no_ok for b in trues) and any(b in err_side for b in falses) and not any(b in err_side and b not in reach(f.cfg(), [ok_succ]) for b in trues)
+    if not ok and len(v) == 1 and trues:
+        # the same under any spelling of the outcome test (combinator chains, `?`, is_ok()): assume the outcome
+        from simple_rules import assume_result_of_call
+        g_ok, g_err = assume_result_of_call(f, v[0], True), assume_result_of_call(f, v[0], False)
+        r_ok, r_err = reach(g_ok, g_ok.get(v[0], [])), reach(g_err, g_err.get(v[0], []))
+        before = reach(cfg_without_edges(f, [(v[0], s_) for s_ in f.cfg().get(v[0], [])]), [0])
+        ok = any(b in r_ok for b in trues) and not any(b in r_err for b in trues) and any(b in r_err for b in falses) and not any(b in before and b != v[0] for b in trues)
     ctx.ob(rule, "verdict/check_file", ok and len(trues) == 1, "check_file returns true only in the Ok arm of validate_crc and false in the Err arm (and when the file cannot be opened): true sites %d, false sites %d" % (len(trues), len(falses)))
     # the reader handed to validate_crc is the opened file
     okf = False
